@@ -50,4 +50,23 @@ def Within {α : Type} (adds : List (Nat × α)) (doccount : Nat) : Prop :=
 def mergedAdds {α : Type} (default : α) (adds : List (Nat × α)) (live : List Nat) : List (Nat × α) :=
   (live.zipIdx).map fun p => (p.2, cell default adds p.1)
 
+/-- The rows a segment shows: its own, or `count` defaults when it has no column. -/
+def SegCol.expand {α : Type} (default : α) : SegCol α → List α
+  | .rows r => r
+  | .empty n => List.replicate n default
+
+/-- What a document stores for one of its fields: the value supplied for a stored field — the
+    `_stored_<name>` override when one was passed — and nothing for a field that is not stored,
+    not supplied, or overridden with `None`. -/
+def specField {α : Type} (f : FieldIn α) : Option α :=
+  if f.stored && f.value.isSome then
+    (match f.override with
+     | none => f.value
+     | some o => o)
+  else none
+
+/-- What `stored_fields(doc)[name]` must be (absent when the document has no such field). -/
+def specStored {α : Type} (fields : List (FieldIn α)) (name : String) : Option α :=
+  (fields.find? (fun f => f.name == name)).bind specField
+
 end WM.Columns
